@@ -106,10 +106,32 @@ def run(ctx):  # noqa: C901, PLR0912, PLR0915
     touch = [n for n in g.real_nodes() if any(isinstance(a, ast.Attribute) and a.attr == '_transaction_id' for a in n.walk())]
     regions = {id(w) for n in touch for w, txt in g.held_withs(n, '_transaction_id_lock')}
     ok = bool(touch) and all(g.held_withs(n, '_transaction_id_lock') for n in touch) and len(regions) == 1
-    inc = [n for n in touch if isinstance(n.stmt, ast.AugAssign) and isinstance(n.stmt.op, ast.Add)
-           and isinstance(n.stmt.value, ast.Constant) and n.stmt.value.value == 1]
-    ret = [n for n in touch if n.kind == 'return']
-    ok = ok and len(inc) == 1 and len(ret) == 1 and g.dominates(inc[0], ret[0])
+    # the one write is an increment by one (`+= 1`, or `new = x + 1; x = new` with the local written out)
+    def _is_inc(n):
+        st = n.stmt
+        if isinstance(st, ast.AugAssign):
+            return isinstance(st.op, ast.Add) and isinstance(st.value, ast.Constant) and st.value.value == 1 and \
+                isinstance(st.target, ast.Attribute) and st.target.attr == '_transaction_id'
+        if isinstance(st, ast.Assign) and any(isinstance(t, ast.Attribute) and t.attr == '_transaction_id' for t in st.targets):
+            return g.symbolic_text(n, st.value) in ('self._transaction_id + 1', '1 + self._transaction_id')
+        return False
+    writes_ = [n for n in touch if n.kind == 'stmt' and isinstance(n.stmt, (ast.Assign, ast.AugAssign)) and any(
+        isinstance(t, ast.Attribute) and t.attr == '_transaction_id'
+        for t in (n.stmt.targets if isinstance(n.stmt, ast.Assign) else [n.stmt.target]))]
+    inc = [n for n in writes_ if _is_inc(n)]
+    # what is returned was read (or computed from a read) inside the critical section: the return statement itself reads
+    # the counter there, or it returns a local whose one definition lies in the region
+    rets_all = [n for n in g.nodes if n.kind == 'return' and n.stmt.value is not None]
+    ret_ok = bool(rets_all)
+    for r in rets_all:
+        if r in touch:
+            ret_ok = ret_ok and bool(inc) and g.dominates(inc[0], r)
+        elif isinstance(r.stmt.value, ast.Name):
+            d = g.unique_def(r, r.stmt.value.id)
+            ret_ok = ret_ok and d is not None and d in touch
+        else:
+            ret_ok = False
+    ok = ok and len(inc) == 1 and len(writes_) == 1 and ret_ok
     ctx.ob('C09.R1', 'increment and read in one critical section', ok,
            'generate_transaction_id: `+= 1` and the returned read lie in one `with self._transaction_id_lock` region',
            fi=gt, witness=[n.text() for n in touch])
@@ -146,20 +168,67 @@ def run(ctx):  # noqa: C901, PLR0912, PLR0915
     eq = repo.func(f'{SCO}._OperationsWorker.enqueue_operation')
     put = calls_in(eq.node, 'put')
     run_ = repo.func(f'{SCO}._OperationsWorker.run')
-    tup_pos = None
-    if put and isinstance(put[0].args[0], ast.Tuple):
-        names = [unparse(e) for e in put[0].args[0].elts]
-        tup_pos = names.index('transaction_id') if 'transaction_id' in names else None
-    # the worker's local that holds what came out of the operations queue (whatever it is called), and its unpacking
-    qvars = {n.targets[0].id for n in walk_no_nested(run_.node) if isinstance(n, ast.Assign)
-             and isinstance(n.targets[0], ast.Name) and isinstance(n.value, ast.Call) and call_name(n.value) == 'get'
-             and '_operations_queue' in unparse(n.value.func)}
-    unp = [n for n in walk_no_nested(run_.node) if isinstance(n, ast.Assign) and isinstance(n.targets[0], ast.Tuple)
-           and isinstance(n.value, ast.Name) and n.value.id in qvars]
-    wid = unparse(unp[0].targets[0].elts[tup_pos]) if unp and tup_pos is not None and \
-        len(unp[0].targets[0].elts) == len(put[0].args[0].elts) else None
+    # what is enqueued: a tuple (position of the id) or a record (NamedTuple) constructed with the id (position and field name)
+    tup_pos, field, width = None, None, None
+    if put:
+        item = put[0].args[0]
+        if isinstance(item, ast.Name):
+            binds = local_assignments(eq.node).get(item.id, [])
+            item = binds[0] if len(binds) == 1 else item
+        if isinstance(item, ast.Tuple):
+            names = [unparse(e) for e in item.elts]
+            tup_pos = names.index('transaction_id') if 'transaction_id' in names else None
+            width = len(names)
+        elif isinstance(item, ast.Call) and isinstance(item.func, ast.Name):
+            rec = next((ci for q_, ci in repo.classes.items() if ci.name == item.func.id and q_.startswith(SCO + '.')
+                        and any(unparse(b).split('.')[-1] == 'NamedTuple' for b in ci.node.bases)), None)
+            if rec is not None:
+                fields = [x.target.id for x in rec.node.body if isinstance(x, ast.AnnAssign) and isinstance(x.target, ast.Name)]
+                argn = [unparse(a) for a in item.args]
+                if 'transaction_id' in argn:
+                    tup_pos = argn.index('transaction_id')
+                    field = fields[tup_pos] if tup_pos < len(fields) else None
+                for k in item.keywords:
+                    if unparse(k.value) == 'transaction_id':
+                        field = k.arg
+                        tup_pos = fields.index(k.arg) if k.arg in fields else None
+                width = len(fields)
+    # the worker's local that holds what came out of the operations queue (whatever it is called, incl. plain aliases of it)
+    la_run = local_assignments(run_.node)
+    qvars = {nm for nm, vals in la_run.items() if any(isinstance(v, ast.Call) and call_name(v) == 'get'
+                                                      and '_operations_queue' in unparse(v.func) for v in vals)}
+    grown = True
+    while grown:
+        grown = False
+        for nm, vals in la_run.items():
+            if nm not in qvars and vals and all(isinstance(v, ast.Name) and v.id in qvars for v in vals):
+                qvars.add(nm)
+                grown = True
+    # the expressions that stand for the id that came out of the queue
+    wids = set()
+    for n in walk_no_nested(run_.node):
+        if isinstance(n, ast.Assign) and isinstance(n.targets[0], ast.Tuple) and isinstance(n.value, ast.Name) and \
+                n.value.id in qvars and tup_pos is not None and len(n.targets[0].elts) == width:
+            wids.add(unparse(n.targets[0].elts[tup_pos]))
+    for q_ in qvars:
+        if field is not None:
+            wids.add(f'{q_}.{field}')
+        if tup_pos is not None:
+            wids.add(f'{q_}[{tup_pos}]')
+    for nm, vals in la_run.items():
+        if vals and all(unparse(v) in wids for v in vals):
+            wids.add(nm)
+    g_run = cfg_of(run_)
+    for n in g_run.real_nodes():   # a, b = rec.x, rec.y
+        if n.kind == 'stmt' and isinstance(n.stmt, ast.Assign) and isinstance(n.stmt.targets[0], ast.Tuple):
+            for t in n.stmt.targets[0].elts:
+                if isinstance(t, ast.Name):
+                    v = g_run.def_value(n, t.id)
+                    if v is not None and unparse(v) in wids:
+                        wids.add(t.id)
+    wid = sorted(wids)[0] if wids else None
     wn = calls_in(run_.node, 'notify_operation')
-    ok = wid is not None and bool(wn) and all(_notify_tid(c) == wid for c in wn)
+    ok = wid is not None and bool(wn) and all(_notify_tid(c) in wids for c in wn)
     ctx.ob('C09.R1', 'id through the queue', ok,
            f'the worker unpacks the id from the same tuple position it was enqueued at ({wid}) and notifies with it',
            fi=run_, witness={'tuple_position': tup_pos, 'worker_name': wid})
@@ -235,10 +304,19 @@ def run(ctx):  # noqa: C901, PLR0912, PLR0915
         dn.setdefault(_notify_state(c), []).append(n)
     ok = True
     wit = []
+    # a return of a result variable stands for the statements that give the variable its value (single-exit spelling)
+    sites = []
     for r in rets:
         if ('operation.delayed_processing', True) in gd.facts_at(r):
             continue
-        val = unparse(r.stmt.value)
+        v = r.stmt.value
+        defs = gd._plain_defs(r, v.id) if isinstance(v, ast.Name) else None  # noqa: SLF001
+        if defs:
+            sites += [(d, gd.def_value(d, v.id)) for d in defs]
+        else:
+            sites.append((r, v))
+    for r, v in sites:
+        val = unparse(v)
         # the notification that reaches this return: the one whose completion dominates it ...
         doms = [s for s, ns in dn.items() for n in ns if gd.dominates(n, r)]
         # ... or, for the return after the try statement, the one on the only non-exceptional way in
@@ -287,6 +365,22 @@ def run(ctx):  # noqa: C901, PLR0912, PLR0915
                       unparse(n.stmt.value).endswith('InvocationState.FAILED') for n in none_nodes)
     sets_err = any(n.kind == 'stmt' and isinstance(n.stmt, ast.Assign) and
                    unparse(n.stmt.targets[0]).endswith('InvocationInfo.InvocationError') for n in none_nodes)
+    if not (sets_failed and sets_err):
+        # single-exit spelling: the branch only chooses the values, one common statement writes them to the response
+        def _delivered(attr, want_suffix):
+            hit = False
+            for n in g.real_nodes():
+                if n.kind == 'stmt' and isinstance(n.stmt, ast.Assign) and unparse(n.stmt.targets[0]).endswith(attr):
+                    for facts, leaf in g.value_cases(n, n.stmt.value):
+                        if ('operation is None', True) in facts:
+                            if want_suffix is not None and not unparse(leaf).endswith(want_suffix):
+                                return False
+                            if isinstance(leaf, ast.Constant) and leaf.value is None:
+                                return False
+                            hit = True
+            return hit
+        sets_failed = sets_failed or _delivered('InvocationInfo.InvocationState', 'InvocationState.FAILED')
+        sets_err = sets_err or _delivered('InvocationInfo.InvocationError', None)
     calls_h = any(call_name(c) in ('handle_operation_request', 'execute_operation') or 'transaction' in (call_name(c) or '')
                   for n in none_nodes for c in n.calls())
     ctx.ob('C09.R5', 'unknown operation', sets_failed and sets_err and not calls_h,
@@ -296,6 +390,12 @@ def run(ctx):  # noqa: C901, PLR0912, PLR0915
     ctx.ob('C09.R5', 'handler only for known operations', ok,
            'handle_operation_request is dominated by `operation is not None`', fi=hr)
 
+    # the threads that carry the protocol survive a failing message / observer: the consumer's notification dispatcher (a
+    # dead thread never delivers the final report to the waiting Future) and the provider's operations worker
+    from .c13 import worker_loops_contained
+    worker_loops_contained(ctx, 'C09.R6', ['sdc11073.consumer.request_handler_deferred.DispatchKeyRegistryDeferred._read_queue',
+                                          'sdc11073.provider.sco._OperationsWorker.run'])
+    gathers_isolate_subscribers(ctx, 'C09.R4')
     # ------------------------------------------------------------------ R6
     shared = ('_transactions', '_last_operation_invoked_reports')
     n_acc = 0
@@ -317,12 +417,13 @@ def run(ctx):  # noqa: C901, PLR0912, PLR0915
     co = repo.func(f'{OM}.call_operation')
     g = cfg_of(co)
     sr = g.nodes_calling('set_result')
-    clash = [(a.lineno, b.lineno) for a, _ in sr for b, _ in sr if a is not b and g.path_exists(a, b)]
-    ctx.ob('C09.R6', 'call_operation: one set_result per path', len(sr) >= 2 and not clash,
+    clash = [(a.lineno, b.lineno) for a, _ in sr for b, _ in sr if a is not b and g.path_exists_const(a, b)]
+    ctx.ob('C09.R6', 'call_operation: one set_result per path', len(sr) >= 1 and not clash,
            'the set_result sites of call_operation are on mutually exclusive paths', fi=co, witness=clash)
     regs = [n for n in g.real_nodes() if n.kind == 'stmt' and isinstance(n.stmt, ast.Assign) and
             unparse(n.stmt.targets[0]).startswith('self._transactions[')]
-    ok = bool(regs) and not any(g.path_exists(a, r) or g.path_exists(r, a) for a, _ in sr for r in regs)
+    # (a result variable that is still None on the registering path keeps `if result is not None: set_result` away from it)
+    ok = bool(regs) and not any(g.path_exists_const(a, r) or g.path_exists_const(r, a) for a, _ in sr for r in regs)
     ctx.ob('C09.R6', 'registered xor completed', ok,
            'a transaction is registered for later completion only on paths that did not complete the Future', fi=co)
     # whatever is registered for later completion starts with the report parts that arrived before the response: on every
@@ -384,6 +485,26 @@ def run(ctx):  # noqa: C901, PLR0912, PLR0915
 
 
 # ---------------------------------------------------------------------- self-test seeds
+def gathers_isolate_subscribers(ctx, rule):
+    """asyncio.gather over the per-subscriber sends collects exceptions (return_exceptions=True): a subscriber that fails in an
+    unexpected way does not make the notification call raise into the code that reports the operation / the commit."""
+    repo = ctx.repo
+    n = 0
+    for q, fi in sorted(repo.funcs.items()):
+        if not q.startswith('sdc11073.provider.subscriptionmgr_async.'):
+            continue
+        for c in calls_in(fi.node, 'gather'):
+            n += 1
+            ok = any(k.arg == 'return_exceptions' and isinstance(k.value, ast.Constant) and k.value.value is True
+                     for k in c.keywords)
+            ctx.ob(rule, f'{fi.name}: gather(return_exceptions=True)', ok,
+                   f'{fi.name}: delivery errors of single subscribers are collected, not raised' if ok else
+                   f'{fi.name}: gather() without return_exceptions=True: the first unexpected delivery error of one subscriber '
+                   f'is raised into the caller (operation handling sees a failure after the final state was sent; other '
+                   f'subscribers get a second, different final state)', fi=fi, node=c)
+    ctx.floor(rule, n, 1, 'asyncio.gather calls in subscriptionmgr_async')
+
+
 from selftest import seed  # noqa: E402
 
 _S = 'src/sdc11073/provider/sco.py'
